@@ -49,6 +49,20 @@ def poly_pairs(max_obj, max_sp, min_obj=2):
     return out
 
 
+def session_plan(pp, o2, u2):
+    """operation histories on ONE multifurcating input object per shape pair: leaf assignment, syntenies and costs updated
+    in place between solves (pairs with a polytomy in one tree only)"""
+    out = []
+    for osh, ssh in pp:
+        if not (T(osh).is_binary() or T(ssh).is_binary()):
+            continue
+        out.append({"slice": "poly-session:3x3x2", "family": "ordered", "poly": True, "session": True, "osh": osh, "ssh": ssh,
+                    "menu": [("a",), ("a", "b")], "costs": [QUICK_MENU[0], QUICK_MENU[4]]})
+        out.append({"slice": "poly-session:3x3x2", "family": "unordered", "poly": True, "session": True, "osh": osh, "ssh": ssh,
+                    "menu": [("a",), ("a", "b"), ("b",)], "costs": [QUICK_MENU[0], QUICK_MENU[4]]})
+    return out
+
+
 def plan(tier, seed):
     out = []
     o3, o2 = spaces.ordered_syntenies(3), spaces.ordered_syntenies(2)
@@ -65,7 +79,9 @@ def plan(tier, seed):
                             {"family": "unordered", "costs": QUICK_MENU[:1]})
         pp = poly_pairs(3, 3)
         out += L.split_plan("poly-ordered:3x3x2", pp, o2, 60, {"family": "ordered", "poly": True, "costs": QUICK_MENU[:2]})
-        out += L.split_plan("poly-unordered:3x3x2", pp, u2, 60, {"family": "unordered", "poly": True, "costs": QUICK_MENU[:2]})
+        out += L.split_plan("poly-unordered:3x3x2", pp, u2, 60, {"family": "unordered", "poly": True,
+                                                                  "costs": [QUICK_MENU[0], QUICK_MENU[4]]})   # default, hgt = inf
+        out += session_plan(pp, o2, u2)
         return out
     for osh, ssh in spaces.shape_pairs(4, 4):
         out.append({"slice": "plain:P4x4", "family": "plain", "osh": osh, "ssh": ssh, "costs": FULL_MENU})
@@ -79,8 +95,9 @@ def plan(tier, seed):
     out += L.split_plan("unordered:U5chainx1x3", [(sh, None) for sh in spaces.chain_shapes(5)], u3, 150,
                         {"family": "unordered", "costs": QUICK_MENU[:3]})
     pp = poly_pairs(3, 3)
-    out += L.split_plan("poly-ordered:3x3x2", pp, o2, 40, {"family": "ordered", "poly": True, "costs": QUICK_MENU[:3]})
-    out += L.split_plan("poly-unordered:3x3x2", pp, u2, 40, {"family": "unordered", "poly": True, "costs": QUICK_MENU[:3]})
+    out += session_plan(pp, o2, u2)
+    out += L.split_plan("poly-ordered:3x3x2", pp, o2, 40, {"family": "ordered", "poly": True, "costs": QUICK_MENU[:3] + [QUICK_MENU[4]]})
+    out += L.split_plan("poly-unordered:3x3x2", pp, u2, 40, {"family": "unordered", "poly": True, "costs": QUICK_MENU[:3] + [QUICK_MENU[4]]})
     p4 = [(o, s) for o, s in poly_pairs(4, 2, min_obj=4)
           if sum(1 for c in T(o).children.values() if len(c) > 2) == 1 and max(len(c) for c in T(o).children.values()) == 3]
     out += L.split_plan("poly-unordered:4x2x2", p4, u2, 40, {"family": "unordered", "poly": True, "costs": QUICK_MENU[:2]})
@@ -133,11 +150,14 @@ def check_labelled_binary(algo, O, S, leafmap, leafsyn, costs, policy):
     return None, len(r.sols), tr
 
 
-def check_labelled_poly(algo, O, S, leafmap, leafsyn, costs, policy):
+def check_labelled_poly(algo, O, S, leafmap, leafsyn, costs, policy, session=None):
     """multifurcating input: validate each solution on the trees it refers to"""
     fn, model, _ = L.SOLVERS[algo]
     is_ord = model == "ordered"
-    inp, onode, snode = A.build_input(O, S, leafmap, costs, leafsyn, unordered=not is_ord)
+    if session is not None:
+        inp, onode, snode = session.set(leafmap, costs, leafsyn)
+    else:
+        inp, onode, snode = A.build_input(O, S, leafmap, costs, leafsyn, unordered=not is_ord)
     oname = {onode[v].name: v for v in O.leaves}
     sname = {snode[v].name: v for v in S.leaves}
     try:
@@ -172,6 +192,12 @@ def check_labelled_poly(algo, O, S, leafmap, leafsyn, costs, policy):
                 return ("invalid", f"{algo}/{policy}: {bad}; {L.fmt_sol(m, lab)}"), len(outs), tr
             if A.impl_cost(out.cost()) == INF:
                 return ("infinite_cost", f"{algo}/{policy}: infinite cost"), len(outs), tr
+            # ... and finite under the unit costs the caller asked for (a refinement must not come with other prices)
+            true_cost = L.model_cost(algo, O2, S2, leafmap2, leafsyn2, costs, m, lab)
+            if true_cost is None or true_cost == INF:
+                return ("infinite_cost", f"{algo}/{policy}: the returned solution has infinite cost under the requested unit "
+                        f"costs {A.costs_to_json(costs)} (its own input carries {sorted((k.name, str(v)) for k, v in out.input.costs.items())}); "
+                        f"{L.fmt_sol(m, lab)}"), len(outs), tr
             evs = dtl.events_of(O2, S2, leafmap2, m)
             tr = tr or any(e[0] == "T" for e in evs.values())
         except Exception as exc:
@@ -223,17 +249,29 @@ def run_shard(shard, tier, seed):
     else:
         algos = ("ext_spfs", "base_spfs") if fam == "ordered" else ("superdtl", "base_uspfs")
         fn = check_labelled_binary
+    sess = None
+    if shard.get("session"):
+        sess = A.Session(O, S, labelled=True, unordered=(fam != "ordered"))
     for leafmap, leafsyn in L.labelled_inputs(O, S, shard["menu"], shard.get("part")):
+        if sess is not None and fam == "ordered" and not ordered.root_orders(leafsyn):
+            continue
         n_inputs += 1
         for costs in shard["costs"]:
             for algo in algos:
                 for policy in ("ALL", "ANY"):
                     n_eval += 1
-                    bad, k, tr = fn(algo, O, S, leafmap, leafsyn, costs, policy)
+                    if sess is not None:
+                        bad, k, tr = fn(algo, O, S, leafmap, leafsyn, costs, policy, session=sess)
+                        if bad:
+                            bad = ("session_" + bad[0], f"solve #{sess.calls} of one input object updated in place: " + bad[1])
+                    else:
+                        bad, k, tr = fn(algo, O, S, leafmap, leafsyn, costs, policy)
                     counters["solutions_checked"] += k
                     if k >= 2 or tr or costs[4] == 0:
                         nt += 1
                     case = dict(L.case_json(osh, ssh, leafmap, leafsyn, costs, algo, policy), family=fam, poly=poly)
+                    if sess is not None:
+                        case["session_shard"] = A.pack(shard)
                     if bad:
                         report(bad, case)
                     if not samples:
@@ -244,6 +282,10 @@ def run_shard(shard, tier, seed):
 
 def replay(v):
     case = v["case"]
+    if case.get("session_shard"):
+        res = run_shard(A.unpack(case["session_shard"]), "quick", 0)
+        hits = [x for x in res["violations"] if x["subcheck"] == v.get("subcheck")] or res["violations"]
+        return {"violated": bool(hits), "detail": (hits[0]["subcheck"] + ": " + hits[0]["detail"]) if hits else None}
     algo, policy = case["algorithm"], case["policy"]
     if case.get("family") == "plain":
         O, S = T(shape_from_json(case["object_shape"])), T(shape_from_json(case["species_shape"]))
